@@ -442,4 +442,42 @@ theorem C07_empty_default_layout (dl : Layout) (parse : Parse) (fuel : Nat) (g :
   simp only [ht, hc]
   rfl
 
+/-- The same for the other types whose layout is guessed from the first position: with no position
+to look at, the geometry gets `dl`, for every value of it. -/
+theorem C07_empty_default_layout_polygon (dl : Layout) (parse : Parse) (fuel : Nat) (g : GS)
+    (ht : g.type = "Polygon") (hc : g.coordinates = some (.arr [])) :
+    decode dl parse (fuel + 1) g = (Poly.setCoords dl []).map .polygon := by
+  unfold decode
+  simp only [ht, hc]
+  rfl
+
+theorem C07_empty_default_layout_multipoint (dl : Layout) (parse : Parse) (fuel : Nat) (g : GS)
+    (ht : g.type = "MultiPoint") (hc : g.coordinates = some (.arr [])) :
+    decode dl parse (fuel + 1) g = (MPoint.setCoords dl []).map .multiPoint := by
+  unfold decode
+  simp only [ht, hc]
+  rfl
+
+theorem C07_empty_default_layout_multilinestring (dl : Layout) (parse : Parse) (fuel : Nat) (g : GS)
+    (ht : g.type = "MultiLineString") (hc : g.coordinates = some (.arr [])) :
+    decode dl parse (fuel + 1) g = (Poly.setCoords dl []).map .multiLineString := by
+  unfold decode
+  simp only [ht, hc]
+  rfl
+
+theorem C07_empty_default_layout_multipolygon (dl : Layout) (parse : Parse) (fuel : Nat) (g : GS)
+    (ht : g.type = "MultiPolygon") (hc : g.coordinates = some (.arr [])) :
+    decode dl parse (fuel + 1) g = (MPoly.setCoords dl []).map .multiPolygon := by
+  unfold decode
+  simp only [ht, hc]
+  rfl
+
+/-- … and an empty first component (a polygon whose first ring has no position) as well. -/
+theorem C07_empty_first_ring_default_layout (dl : Layout) (parse : Parse) (fuel : Nat) (g : GS)
+    (ht : g.type = "Polygon") (hc : g.coordinates = some (.arr [.arr []])) :
+    decode dl parse (fuel + 1) g = (Poly.setCoords dl [[]]).map .polygon := by
+  unfold decode
+  simp only [ht, hc]
+  rfl
+
 end GeomVerif.C07
